@@ -5,6 +5,7 @@ import Lemmas.Offline.Literal
 import Lemmas.Offline.Run
 import Lemmas.Offline.Linear
 import Lemmas.Offline.Frame
+import Props.C18
 /-!
 # C12 — the offline SQL script has the same effect as the online run
 -/
@@ -761,5 +762,115 @@ example : (execAll exSecs.flatten DB.empty).isSome = true ∧
     durable (execF (FStmt.begin :: stmtsF exSecs.flatten) ⟨DB.empty, none⟩) = some DB.empty := by decide +kernel
 example : framed { tddl := true, perMig := false } [[.vtDrop]] [] = [.begin, .stmt .vtDrop, .commit] ∧
     framed { tddl := true, perMig := true } [[.vtCreate]] [.vtDrop] = [.begin, .stmt .vtCreate, .commit, .stmt .vtDrop] := by decide
+
+/-! ## the framing C18's model emits is one of the placements `framed` allows -/
+
+open Spec.Txn (markers pairs totalAuto autoSections)
+open Model.Txn (runToks loopToks migToks innerToks bodyToks segToks Mig Seg)
+
+abbrev TTok := Model.Txn.Tok
+
+theorem fmarkers_append (a b : List FStmt) : fmarkers (a ++ b) = fmarkers a ++ fmarkers b := by
+  induction a with
+  | nil => rfl
+  | cons x r ih => cases x <;> simp [fmarkers, ih]
+
+theorem fmarkers_stmtsF (l : List Stmt) : fmarkers (stmtsF l) = [] := by
+  induction l with
+  | nil => rfl
+  | cons s r ih => simpa [stmtsF, fmarkers] using ih
+
+/-- markers of `k` blocks, or none -/
+def blocks (b : Bool) (k : Nat) : List TTok := if b then pairs k else []
+
+/-- an enclosing block around inner markers, or none -/
+def around (b : Bool) (inner : List TTok) : List TTok := if b then Model.Txn.Tok.begin :: (inner ++ [Model.Txn.Tok.commit]) else inner
+
+theorem fmarkers_bodyF (cfg : Cfg) (secs : List (List Stmt)) :
+    fmarkers (bodyF cfg secs) = blocks (emitsBlock cfg true) secs.length := by
+  induction secs with
+  | nil => cases h : emitsBlock cfg true <;> simp [bodyF, fmarkers, blocks, h, pairs]
+  | cons sec r ih =>
+    cases h : emitsBlock cfg true <;>
+      simp_all [bodyF, wrap, fmarkers_append, fmarkers_stmtsF, fmarkers, blocks, pairs]
+
+theorem fmarkers_framed (cfg : Cfg) (secs : List (List Stmt)) (tr : List Stmt) :
+    fmarkers (framed cfg secs tr) = around (emitsBlock cfg false) (blocks (emitsBlock cfg true) secs.length) := by
+  cases h : emitsBlock cfg false <;>
+    simp [framed, wrap, h, around, fmarkers_append, fmarkers_bodyF, fmarkers_stmtsF, fmarkers]
+
+theorem markers_nil : markers ([] : List TTok) = [] := rfl
+
+theorem markers_cons (t : TTok) (r : List TTok) :
+    markers (t :: r) = if Spec.Txn.isMarker t then t :: markers r else markers r := by
+  simp only [markers, List.filter_cons]
+
+theorem markers_replicate (n : Nat) (t : TTok) (h : Spec.Txn.isMarker t = false) : markers (List.replicate n t) = [] := by
+  simp only [markers, List.filter_eq_nil_iff]
+  intro x hx
+  rw [List.eq_of_mem_replicate hx]
+  simp [h]
+
+theorem markers_body (cfg : Cfg) (i : Nat) (segs : List Seg) (h : autoSections segs = 0) :
+    markers (bodyToks cfg i segs) = [] := by
+  induction segs with
+  | nil => rfl
+  | cons sg r ih =>
+    cases sg with
+    | auto n => simp [autoSections] at h
+    | plain n =>
+      simp only [autoSections] at h
+      simp [bodyToks, segToks, C18.markers_append, markers_replicate n (Model.Txn.Tok.stmt i) rfl, ih h]
+
+theorem markers_mig (cfg : Cfg) (i : Nat) (m : Mig) (h : autoSections m.segs = 0) :
+    markers (migToks cfg i m) = blocks (emitsBlock cfg true) 1 := by
+  have hin : markers (innerToks cfg i m) = [] := by
+    cases hc : m.createVT <;>
+      simp [innerToks, hc, C18.markers_append, markers_body cfg i m.segs h,
+        markers_replicate m.nver (Model.Txn.Tok.version i) rfl, Spec.Txn.isMarker, markers_cons, markers_nil]
+  cases hb : emitsBlock cfg true <;>
+    simp [migToks, hb, blocks, pairs, C18.markers_append, hin, markers_cons, markers_nil, Spec.Txn.isMarker]
+
+theorem pairs_add (a b : Nat) : pairs a ++ pairs b = pairs (a + b) := by
+  induction a with
+  | zero => simp [pairs]
+  | succ a ih => simp [pairs, Nat.succ_add, ih]
+
+theorem markers_loop (cfg : Cfg) : ∀ (migs : List Mig) (i : Nat), totalAuto migs = 0 →
+    markers (loopToks cfg i migs) = blocks (emitsBlock cfg true) migs.length := by
+  intro migs
+  induction migs with
+  | nil => intro i _; cases h : emitsBlock cfg true <;> simp [loopToks, markers_nil, blocks, h, pairs]
+  | cons m r ih =>
+    intro i h
+    simp only [totalAuto] at h
+    have h1 : autoSections m.segs = 0 := by omega
+    have h2 : totalAuto r = 0 := by omega
+    rw [loopToks, C18.markers_append, markers_mig cfg i m h1, ih (i + 1) h2]
+    cases hb : emitsBlock cfg true
+    · simp [blocks]
+    · simp only [blocks, if_true, List.length_cons]
+      rw [pairs_add]; congr 1; omega
+
+/-- **C12.c18_framing_is_framed.** For every configuration and every run of C18's framing model without autocommit
+sections: the BEGIN / COMMIT markers of the script the C18 model emits are exactly the markers of C12's `framed`
+script for the same configuration and the same number of sections - an enclosing block, one block per migration
+section, or none (`around`/`blocks` name the three placements).  Hence `same_effect_framed` speaks about every script
+C18's model emits for such runs. -/
+theorem c18_framing_is_framed (cfg : Cfg) (migs : List Mig) (dropVT : Bool) (hauto : totalAuto migs = 0)
+    (secs : List (List Stmt)) (tr : List Stmt) (hlen : secs.length = migs.length) :
+    markers (runToks cfg migs dropVT) = fmarkers (framed cfg secs tr) ∧
+      fmarkers (framed cfg secs tr) = around (emitsBlock cfg false) (blocks (emitsBlock cfg true) migs.length) := by
+  have hr : markers (runToks cfg migs dropVT) = around (emitsBlock cfg false) (blocks (emitsBlock cfg true) migs.length) := by
+    have hl := markers_loop cfg migs 0 hauto
+    cases hb : emitsBlock cfg false <;> cases dropVT <;>
+      simp [runToks, hb, around, C18.markers_append, hl, markers_cons, markers_nil, Spec.Txn.isMarker]
+  rw [fmarkers_framed, hlen]
+  exact ⟨hr, rfl⟩
+
+/-- non-vacuity: a per-migration run of C18's model and C12's framed script of two sections plus trailer -/
+example : markers (runToks { tddl := true, perMig := true } [⟨[.plain 2], 1, true⟩, ⟨[], 2, false⟩] true) =
+    fmarkers (framed { tddl := true, perMig := true } [[.vtCreate, .vtInsert ['a']], [.vtUpdate ['a'] ['b']]] [.vtDrop]) := by
+  decide
 
 end C12
